@@ -232,3 +232,22 @@ Print Assumptions C05_predicate_roundtrip_go_time.
 Example C05_go_time_example :
   print_pred go_time_library (mkPred (lit "p") (Some (mkTime 951782400500000000 20700))) = lit """p""@[2000-02-29T05:45:00.5+05:45]".
 Proof. vm_compute. reflexivity. Qed.
+
+(* ---- the order law (for the Table family: sorting by the printed form).  For one zone offset and one length of the printed
+   fraction, bytewise order of Format(RFC3339Nano) = order of the instants; across zones or precisions it is not. *)
+From BWValues Require Import TimeOrder.
+
+Theorem C05_rfc3339nano_order : forall a b, ns_dom a -> ns_dom b -> t_off a = t_off b -> frac_len a = frac_len b ->
+  str_ltb (fmt_rfc3339nano a) (fmt_rfc3339nano b) = (t_ns a <? t_ns b)%Z.
+Proof. exact fmt_order_same_zone_same_precision. Qed.
+Print Assumptions C05_rfc3339nano_order.
+
+Theorem C05_rfc3339nano_order_zone_refuted : exists a b, ns_dom a /\ ns_dom b /\ frac_len a = frac_len b /\
+  (t_ns a < t_ns b)%Z /\ str_ltb (fmt_rfc3339nano a) (fmt_rfc3339nano b) = false.
+Proof. exact fmt_order_zone_refuted. Qed.
+Print Assumptions C05_rfc3339nano_order_zone_refuted.
+
+Theorem C05_rfc3339nano_order_precision_refuted : exists a b, ns_dom a /\ ns_dom b /\ t_off a = t_off b /\
+  (t_ns a < t_ns b)%Z /\ str_ltb (fmt_rfc3339nano a) (fmt_rfc3339nano b) = false.
+Proof. exact fmt_order_precision_refuted. Qed.
+Print Assumptions C05_rfc3339nano_order_precision_refuted.
